@@ -231,7 +231,7 @@ theorem step_other (w : World) (op : Op) (h : WOk w) (hin : inContract w op = tr
       · exact hs'
       · rename_i s0 hl
         exact setc c none (key c (okC_free hin hl))
-  | mkBlock c n =>
+  | mkBlock c n len =>
     apply same <;> simp only [step] <;> split
     · exact hi
     · exact hi
@@ -249,7 +249,7 @@ theorem step_other (w : World) (op : Op) (h : WOk w) (hin : inContract w op = tr
     · exact hi
     · exact hs'
     · rename_i s0 hl; exact setc c _ (key c (okC_free hin hl))
-  | mkFrame hh n =>
+  | mkFrame hh n len =>
     apply same <;> simp only [step] <;> split
     · exact hi
     · exact hi
